@@ -1,7 +1,7 @@
 //! C17 harness: concrete syntax trees of vhdl_syntax are lossless, tree edits are local.
 //!
 //! usage: c17 <mode> <seed> <n> <cases_out> <impl_out>
-//!   mode = exhaustive<k> | random | file:<path> | deep:<n>[:<k>/<m>] | limit[:<k>/<m>] | api
+//!   mode = exhaustive<k> | random | file:<path> | deep:<n>[:<k>/<m>] | limit[:<k>/<m>] | api | runs
 //!          (file: one input per line, bytes in decimal, or a descriptor `@deep:<shape>:<n>:<c|u>`;
 //!           deep:<n>: every nesting shape of DEEP_SHAPES at depth n, closed and unclosed, each in a child
 //!           process whose worker thread has a 2 MiB stack, so that a stack overflow (process abort) is observed: flag A)
@@ -319,6 +319,100 @@ fn nav_root_ok(root: &SyntaxNode, w: &Walk) -> bool {
     ok
 }
 
+/// Every public entry point of the crate on the same bytes: all must give the reference token sequence
+/// (`bytes.tokenize()` / `TokenStream::from(&[u8])`) resp. a tree identical to `parse(&[u8])`.
+/// The `&str` / `String` paths are driven when the bytes are valid UTF-8.
+fn entry_points_ok(input: &[u8], raw: &[(Token, Option<LexErr>)], stream: &[(Token, Option<LexErr>)], root: &SyntaxNode, nerrs: &[String], full: bool) -> bool {
+    use vhdl_syntax::latin_1::{Latin1Str, Latin1String};
+    use vhdl_syntax::standard::VHDLStandard;
+    use vhdl_syntax::tokens::Tokenizer;
+    fn same(a: &[(Token, Option<LexErr>)], b: &[(Token, Option<LexErr>)]) -> bool {
+        a.len() == b.len()
+            && a.iter().zip(b.iter()).all(|((t, e), (u, f))| {
+                t == u
+                    && match (e, f) {
+                        (None, None) => true,
+                        (Some(x), Some(y)) => err_kind_char(&x.err) == err_kind_char(&y.err) && format!("{:?}", x.pos) == format!("{:?}", y.pos),
+                        _ => false,
+                    }
+            })
+    }
+    let tree_same = |r: (vhdl_syntax::syntax::DesignFileSyntax, Vec<SyntaxErr>)| -> bool {
+        r.0.raw() == *root && printed(&r.0.raw()) == input && r.1.iter().map(err_str).collect::<Vec<_>>() == nerrs
+    };
+    let mut ok = true;
+    let text = std::str::from_utf8(input).ok();
+    if let Some(t) = text {
+        ok &= tree_same(vhdl_syntax::parser::parse(t));
+        ok &= same(&TokenStream::from(t).collect::<Vec<_>>(), stream);
+    }
+    if !full {
+        return ok;
+    }
+    // tokenizers
+    ok &= same(&input.to_vec().tokenize().collect::<Vec<_>>(), raw);
+    ok &= same(&Tokenizer::new(input.iter().copied()).collect::<Vec<_>>(), raw);
+    ok &= same(&Tokenizer::from(input.to_vec()).collect::<Vec<_>>(), raw);
+    ok &= same(&Tokenizer::with_standard(VHDLStandard::default(), input.iter().copied()).collect::<Vec<_>>(), raw);
+    ok &= same(&Latin1Str::new(input).tokenize().collect::<Vec<_>>(), raw);
+    ok &= same(&Latin1String::from(input).tokenize().collect::<Vec<_>>(), raw);
+    // token streams
+    ok &= same(&TokenStream::from(input.to_vec()).collect::<Vec<_>>(), stream);
+    ok &= same(&input.tokenize().collect::<TokenStream>().collect::<Vec<_>>(), stream);
+    // parsers
+    ok &= tree_same(vhdl_syntax::parser::parse(input.to_vec()));
+    ok &= tree_same(vhdl_syntax::parser::parse_with_standard(VHDLStandard::default(), input.iter().copied()));
+    ok &= tree_same(vhdl_syntax::parser::parse(input.tokenize().collect::<TokenStream>()));
+    if let Some(t) = text {
+        ok &= same(&t.tokenize().collect::<Vec<_>>(), raw);
+        ok &= same(&t.to_string().tokenize().collect::<Vec<_>>(), raw);
+        ok &= same(&TokenStream::from(t.to_string()).collect::<Vec<_>>(), stream);
+        ok &= tree_same(vhdl_syntax::parser::parse(t.to_string()));
+        ok &= tree_same(vhdl_syntax::parser::parse_with_standard(VHDLStandard::default(), t.bytes()));
+    }
+    ok
+}
+
+/// Every printing API on the tree against the input and against the cached lengths: write_to of every trivia piece,
+/// trivia and token (lengths = byte_len), and for ASCII inputs display() / to_string() of root, nodes and tokens
+/// (display transcodes Latin-1 to UTF-8, so it is byte-identical to write_to exactly on ASCII text).
+fn printing_ok(input: &[u8], root: &SyntaxNode, w: &Walk) -> bool {
+    use vhdl_syntax::fmt::write::FormatToExt;
+    let mut ok = true;
+    for l in &w.leaves {
+        let tok = l.token();
+        let mut tv = Vec::new();
+        tok.leading_trivia().write_to(&mut tv).unwrap();
+        ok &= tv.len() == tok.leading_trivia().byte_len();
+        let mut sum = 0usize;
+        for p in tok.leading_trivia().iter() {
+            let mut pv = Vec::new();
+            p.write_to(&mut pv).unwrap();
+            ok &= pv.len() == p.byte_len();
+            sum += pv.len();
+        }
+        ok &= sum == tv.len();
+        let mut t1 = Vec::new();
+        tok.write_to(&mut t1).unwrap();
+        ok &= t1.len() == tok.byte_len() && l.offset() + t1.len() <= input.len() && input[l.offset()..l.offset() + t1.len()] == t1[..];
+    }
+    if input.is_ascii() {
+        ok &= root.display().to_string().as_bytes() == input;
+        ok &= format!("{}", root.display()).len() == root.byte_len();
+        // (per token only up to 20000 tokens: the deep inputs have 10^5..10^6)
+        for l in w.leaves.iter().take(20000) {
+            let r = l.range();
+            ok &= r.end <= input.len() && l.display().to_string().as_bytes() == &input[r.clone()];
+            ok &= l.token().display().to_string().as_bytes() == &input[r];
+        }
+        for n in w.nodes.iter().take(200) {
+            let r = n.range();
+            ok &= r.end <= input.len() && n.display().to_string().as_bytes() == &input[r];
+        }
+    }
+    ok
+}
+
 struct Keep;
 impl TokenRewrite for Keep {
     fn token(&mut self, _t: &SyntaxToken) -> TokenRewriteAction {
@@ -383,6 +477,7 @@ const BIG: usize = 5000;
 
 fn run_case(input: &[u8], rng: &mut Rng, fixed_repl: Option<&str>, label: Option<&str>, expect_clean: bool) -> (String, String) {
     let big = input.len() > BIG;
+    let force_full = label.is_some();
     let mut flags = String::new();
     take_panic();
     let t0 = std::time::Instant::now();
@@ -483,6 +578,17 @@ fn run_case(input: &[u8], rng: &mut Rng, fixed_repl: Option<&str>, label: Option
             }
             events = if big { "BIG".to_string() } else { w.events.trim_end().to_string() };
             offsets = if big { "BIG".to_string() } else { w.offsets.trim_end_matches(';').to_string() };
+            // every printing API, every entry point
+            if !catch_unwind(AssertUnwindSafe(|| printing_ok(input, &root, &w))).unwrap_or(false) {
+                flags.push('Y');
+            }
+            if let (Ok(rt), Ok(st)) = (&raw, &stream) {
+                let full = !big && (input.len() <= 200 || input.len() % 4 == 0 || force_full);
+                let nerrs: Vec<String> = errs.iter().map(err_str).collect();
+                if !catch_unwind(AssertUnwindSafe(|| entry_points_ok(input, rt, st, &root, &nerrs, full))).unwrap_or(false) {
+                    flags.push('U');
+                }
+            }
             lap!("walked");
             // leaf sequence = token stream
             if let Ok(ts) = &stream {
@@ -822,9 +928,70 @@ fn limit_input(shape: usize, n: usize, tail: usize) -> Vec<u8> {
     b
 }
 
-/// `@deep:<shape>:<n>:<c|u>` / `@limit:<shape>:<n>:<tail>` -> (input, no syntax error expected)
+/// Long runs of every whitespace trivia kind (run lengths around the powers of two up to 65537), alone and mixed,
+/// between tokens, at the start and at the end of the file.
+const RUN_LENGTHS: &[usize] = &[0, 1, 2, 7, 8, 9, 15, 16, 17, 31, 32, 33, 63, 64, 65, 127, 128, 129, 255, 256, 257, 1000, 4097, 65537];
+const RUN_KINDS: usize = 10;
+const RUN_PLACEMENTS: usize = 5;
+fn runs_input(kind: usize, len: usize, placement: usize) -> Vec<u8> {
+    let unit: &[&[u8]] = match kind {
+        0 => &[b" "],
+        1 => &[b"\t"],
+        2 => &[b"\n"],
+        3 => &[b"\r"],
+        4 => &[b"\r\n"],
+        5 => &[b"\x0c"],
+        6 => &[b"\x0b"],
+        7 => &[b"\xa0"],
+        8 => &[b"\r\n", b" "],
+        _ => &[b" ", b"\n", b"\t", b"\r\n", b"\r"],
+    };
+    let mut run = Vec::new();
+    for u in unit {
+        for _ in 0..len {
+            run.extend_from_slice(u);
+        }
+    }
+    let mut s = Vec::new();
+    match placement {
+        0 => s.extend_from_slice(&run),
+        1 => {
+            s.extend_from_slice(b"a");
+            s.extend_from_slice(&run);
+            s.extend_from_slice(b"b");
+        }
+        2 => {
+            s.extend_from_slice(&run);
+            s.extend_from_slice(b"a");
+        }
+        3 => {
+            s.extend_from_slice(b"a");
+            s.extend_from_slice(&run);
+        }
+        _ => {
+            s.extend_from_slice(b"entity e is");
+            s.extend_from_slice(&run);
+            s.extend_from_slice(b"-- c\n");
+            s.extend_from_slice(&run);
+            s.extend_from_slice(b"end;");
+            s.extend_from_slice(&run);
+        }
+    }
+    s
+}
+
+/// `@deep:<shape>:<n>:<c|u>` / `@limit:<shape>:<n>:<tail>` / `@runs:<kind>:<len>:<placement>` -> (input, no syntax error expected)
 fn parse_descriptor(d: &str) -> Option<(Vec<u8>, bool)> {
     let p: Vec<&str> = d.split(':').collect();
+    if p.len() == 4 && p[0] == "@runs" {
+        let kind: usize = p[1].parse().ok()?;
+        let len: usize = p[2].parse().ok()?;
+        let pl: usize = p[3].parse().ok()?;
+        if kind >= RUN_KINDS || pl >= RUN_PLACEMENTS {
+            return None;
+        }
+        return Some((runs_input(kind, len, pl), false));
+    }
     if p.len() == 4 && p[0] == "@limit" {
         let shape: usize = p[1].parse().ok()?;
         let n: usize = p[2].parse().ok()?;
@@ -1024,6 +1191,18 @@ fn library_files() -> Vec<Vec<u8>> {
 }
 
 fn gen_random(rng: &mut Rng, corpus: &[Vec<u8>]) -> Vec<u8> {
+    let mut s = gen_random_plain(rng, corpus);
+    // byte order marks and NUL in front of / inside the text
+    if rng.chance(1, 40) {
+        const MARKS: &[&[u8]] = &[b"\xef\xbb\xbf", b"\xfe\xff", b"\xff\xfe", b"\x00", b"\xef\xbb\xbf\xef\xbb\xbf"];
+        let m: &[u8] = *rng.pick(MARKS);
+        let pos = if rng.chance(2, 3) || s.is_empty() { 0 } else { rng.below(s.len()) };
+        s.splice(pos..pos, m.to_vec());
+    }
+    s
+}
+
+fn gen_random_plain(rng: &mut Rng, corpus: &[Vec<u8>]) -> Vec<u8> {
     match rng.below(10) {
         // arbitrary bytes
         0 => {
@@ -1189,6 +1368,16 @@ fn main() {
                             x /= a;
                         }
                         emit_to(&mut cases, &mut imp, &s, &mut rng, None, None, false);
+                    }
+                }
+            } else if mode == "runs" {
+                for kind in 0..RUN_KINDS {
+                    for &len in RUN_LENGTHS {
+                        for pl in 0..RUN_PLACEMENTS {
+                            let d = format!("@runs:{}:{}:{}", kind, len, pl);
+                            let inp = runs_input(kind, len, pl);
+                            emit_to(&mut cases, &mut imp, &inp, &mut rng, None, Some(&d), false);
+                        }
                     }
                 }
             } else if mode == "api" {
